@@ -454,8 +454,17 @@ def criticalPage (rawPath : Bytes) (debug : Bool) (dbg : Str × Str) : Str :=
       "\n</pre>\n<h2>Traceback:</h2>\n<pre>\n".toList ++ helperEscape dbg.2 ++ "\n</pre>\n".toList
   else err
 
-def criticalResp (rawPath : Bytes) (debug : Bool) (dbg : Str × Str) : Resp :=
-  { status := "500 INTERNAL SERVER ERROR".toList, ctype := htmlType, body := criticalPage rawPath debug dbg }
+/-- the last-resort response; since the HEAD fix of `wsgi` it has no body for HEAD -/
+def criticalResp (rawPath : Bytes) (debug : Bool) (dbg : Str × Str) (isHead : Bool) : Resp :=
+  { status := "500 INTERNAL SERVER ERROR".toList, ctype := htmlType,
+    body := if isHead then [] else criticalPage rawPath debug dbg }
+
+/-- rfc2616 section 4.3 test of `wsgi`: 1xx, 204, 304 and HEAD answers carry no body -/
+def bodyless (code : Nat) (isHead : Bool) : Bool :=
+  (100 ≤ code && code < 200) || code == 204 || code == 304 || isHead
+
+/-- `BaseResponse.bad_headers`: `headerlist` withholds Content-Type for 204 and 304 -/
+def ctypeOf (code : Nat) (ct : Str) : Str := if code == 204 || code == 304 then [] else ct
 
 /-- One WSGI call that ends in a framework-generated response.  `handlerFails`: an error handler
 registered by the application for this status raises; `dbg`: the texts the debug variant of the
@@ -465,9 +474,11 @@ def serve (pr : Char → Bool) (lines : List Str) (debug : Bool) (req : Req) (oc
   match handleErr pr req.rawPath oc with
   | .inl body => { status := statusLine 200, ctype := htmlType, body := if req.isHead then [] else body }
   | .inr res =>
-    if handlerFails then criticalResp req.rawPath debug dbg
+    if handlerFails then criticalResp req.rawPath debug dbg req.isHead
     else match defaultErrorHandler pr lines debug req res with
-      | .error _ => criticalResp req.rawPath debug dbg
-      | .ok (ct, text) => { status := res.status, ctype := ct, body := if req.isHead then [] else text }
+      | .error _ => criticalResp req.rawPath debug dbg req.isHead
+      | .ok (ct, text) =>
+        { status := res.status, ctype := ctypeOf res.code ct,
+          body := if bodyless res.code req.isHead then [] else text }
 
 end Ombott.ErrorPage
